@@ -16,8 +16,8 @@
  *             o : <iface>:<id> or -           n : integer id (kind 0: <iface>:<id>, the proxy)
  *             a : <count>:<v>,<v>,...  (32-bit integers)
  *   D <conn>                                   wl_connection_destroy(&conns[conn])
- * Before each operation it prints "@@ <line number>" on stdout (unbuffered) so that the plugin's output can be
- * attributed to operations.  Connection structs come from a fixed array: address reuse is scripted.
+ * Before each operation it calls mock_marker(<line number>) (see there) so that the plugin's output can be attributed
+ * to operations.  Connection structs come from a fixed array: address reuse is scripted.
  */
 #include <pthread.h>
 #include <stddef.h>
@@ -61,6 +61,9 @@ __attribute__((noinline)) static int wl_client_connection_data(int fd, uint32_t 
   return 0;
 }
 __attribute__((noinline)) void wl_connection_destroy(struct wl_connection *connection) { g_hits++; }
+/* The harness puts a breakpoint here whose commands write "@@ <line>" to the very stream the plugin writes to, so that
+ * what the plugin prints can be attributed to operations without relying on the interleaving of two processes' output. */
+__attribute__((noinline)) void mock_marker(int line) { g_current = line; }
 
 #define MAXI 64
 #define MAXM 4096
@@ -152,18 +155,17 @@ int main(int argc, char **argv) {
       struct wl_resource *res = calloc(1, sizeof *res);
       res->object.interface = &ifaces[tif]; res->object.id = c->sender_id; res->client = &clients[o.conn];
       o.res = res; o.target = &res->object;
-      g_current = lineno;
-      printf("@@ %d\n", lineno);
+      mock_marker(lineno);
       if (o.thread > 0) { pthread_t t; pthread_create(&t, NULL, run_op, &o); pthread_join(t, NULL); } else run_op(&o);
     } else if (tok[0] == 'D') {
       struct op o; memset(&o, 0, sizeof o);
       o.kind = 9; o.conn = atoi(strtok(NULL, " \n"));
       char *th = strtok(NULL, " \n"); o.thread = th ? atoi(th) : 0;
-      g_current = lineno;
-      printf("@@ %d\n", lineno);
+      mock_marker(lineno);
       if (o.thread > 0) { pthread_t t; pthread_create(&t, NULL, run_op, &o); pthread_join(t, NULL); } else run_op(&o);
     }
   }
-  printf("@@ end %d\n", g_hits);
+  mock_marker(-1);
+  printf("done %d\n", g_hits);
   return 0;
 }
